@@ -13,15 +13,17 @@ import Autog.Lemmas.TreeInitDfs
     (c) the counter is exact (C12) and the logged number equals the model's count on the returned order on every traced run
         (`T:crossings`), the positioners keep the order (C12_*_keeps_order).
     (d) the bridge from the model to (a), for ALL trees (`C13_initPositions_preorder`, `C13_initPositions_no_crossing`): on every
-        graph state that represents a rooted tree (`TreeRep`: out-lists = children in order, root alone in the first layer list,
-        layer = depth, every node a tree node) the model's `initPositions` (the exact model of `initPositionsFromTop`) returns — the
+        graph state that represents a rooted tree (`TreeRep`: for the run from the top the out-lists are the children in order and
+        the root is alone in the first layer list; for the run from the bottom — edges pointing toward the root — the in-lists and
+        the last layer list; layer = an injective function of depth; every node a tree node) the model's `initPositions` (the
+        exact model of `initPositionsFromTop` / `…FromBottom`) returns — the
         machine works through a subtree in exactly 2·size steps — and gives every node its index in the pre-order level list of its
         depth; hence, listing the tree edges between two consecutive depths parent by parent, parent positions never decrease and
         child positions strictly increase: no two of them cross.
     NOT proved: that the model's bilayer extraction (`countCrossings`, which collects the incident edges of the larger layer and
     feeds their position pairs to the verified counter) sees exactly these edge lists, i.e. the step from (d) to the hypothesis
-    `crossingsAll g1 = 0` of (b); that phases 1–2 and `breakLongEdges` turn a tree input into a `TreeRep` state; and the mirror
-    image for in-trees (run from the bottom). These are decided per run: every generated tree (all edge orders, both directions,
+    `crossingsAll g1 = 0` of (b); and that phases 1–2 and `breakLongEdges` turn a tree input into a `TreeRep` state. These are
+    decided per run: every generated tree (all edge orders, both directions,
     both layerers, all size-aware positioners) must come back with 0 logged and 0 recounted crossings. -/
 
 namespace Autog
@@ -65,13 +67,33 @@ def exTreeG : G :=
     elist := [0, 1, 2, 3, 4],
     layers := #[{ index := 0, nodes := [0] }, { index := 1, nodes := [2, 1] }, { index := 2, nodes := [5, 3, 4] }] }
 
-example : TreeInitDfs.TreeRep exTreeG TreePreorderPlanar.ex 0 :=
+example : TreeInitDfs.TreeRep true exTreeG TreePreorderPlanar.ex (fun d => (d : Int)) :=
   { kids := by simp [TreeInitDfs.KidsOK, TreeInitDfs.KidsOKs, TreePreorderPlanar.ex]; decide
     nd := by decide
     first := by decide
     span := by decide
     bound := by decide
     size := by decide
+    inj := fun a b h => by omega
+    lay := by decide }
+
+/-- the same tree with every edge pointing toward the root, layered bottom-up: the run from the bottom sees it -/
+def exInTreeG : G :=
+  { nodes := #[{ id := "r", ins := [3, 0], layer := 2 }, { id := "a", outs := [3], ins := [4, 1], layer := 1 },
+               { id := "b", outs := [0], ins := [2], layer := 1 }, { id := "c", outs := [4], layer := 0 },
+               { id := "d", outs := [1], layer := 0 }, { id := "e", outs := [2], layer := 0 }],
+    edges := #[{ src := 2, dst := 0 }, { src := 4, dst := 1 }, { src := 5, dst := 2 }, { src := 1, dst := 0 }, { src := 3, dst := 1 }],
+    elist := [0, 1, 2, 3, 4],
+    layers := #[{ index := 0, nodes := [5, 3, 4] }, { index := 1, nodes := [2, 1] }, { index := 2, nodes := [0] }] }
+
+example : TreeInitDfs.TreeRep false exInTreeG TreePreorderPlanar.ex (fun d => 2 - (d : Int)) :=
+  { kids := by simp [TreeInitDfs.KidsOK, TreeInitDfs.KidsOKs, TreePreorderPlanar.ex]; decide
+    nd := by decide
+    first := by decide
+    span := by decide
+    bound := by decide
+    size := by decide
+    inj := fun a b h => by omega
     lay := by decide }
 
 example : ((initPositions true exTreeG).toOption.map fun g => g.nodes.toList.map (·.pos)) = some [0, 0, 1, 0, 1, 2] := by decide +kernel
